@@ -59,7 +59,34 @@ func (w *World) fieldWriters(pkgRel, typ, field string) []writerSite {
 func (w *World) nodeCallers(fn *ssa.Function) []CallerSite {
 	var out []CallerSite
 	seen := map[string]bool{}
-	for _, cs := range w.Callers(fn) {
+	// a bound-method wrapper or thunk stands for the functions that call it (a
+	// method value `x.m` invoked through a variable is a call of m by that caller)
+	var raw []CallerSite
+	var climb func(f *ssa.Function, d int)
+	climb = func(f *ssa.Function, d int) {
+		for _, cs := range w.Callers(f) {
+			if cs.Caller != nil && d < 3 && (strings.HasSuffix(cs.Caller.Name(), "$bound") || strings.HasSuffix(cs.Caller.Name(), "$thunk")) {
+				n := len(raw)
+				climb(cs.Caller, d+1)
+				if len(raw) == n {
+					// never seen called: whoever creates the method value counts as the caller
+					for _, mf := range w.ModuleFuncs() {
+						for _, b := range mf.Blocks {
+							for _, in := range b.Instrs {
+								if mc, ok := in.(*ssa.MakeClosure); ok && mc.Fn == ssa.Value(cs.Caller) {
+									raw = append(raw, CallerSite{Caller: mf})
+								}
+							}
+						}
+					}
+				}
+				continue
+			}
+			raw = append(raw, cs)
+		}
+	}
+	climb(fn, 0)
+	for _, cs := range raw {
 		if cs.Caller == nil {
 			continue
 		}
